@@ -164,6 +164,19 @@ def directed_scenarios(tier):
     if tier == "thorough":
         out.append(dict(two("v1win-batch-boundary-200-all", 255, 8, 0, n1=dict(tip="g"), v1Window="all", deadlineMs=30000), allow=200, require=250, final=300))
         out.append(dict(two("v1win-batch-boundary-fork", 130, 120, 110, n1=dict(branch="b"), v1Window="all", deadlineMs=30000), allow=200, require=250, final=300))
+    # heaviest is not longest: non-trivial initial difficulty, a 150-block fork mined ahead of schedule (difficulty
+    # rises) is sufficiently heavier than a 165-block fork mined far behind schedule (difficulty falls)
+    out.append(dict(id="heavier-shorter-150-165", hardTarget=True, shorterWinner=True,
+                    branches=[dict(name="t", **{"from": ""}, at=0, len=0), dict(name="a", **{"from": "t"}, at=0, len=150, pace="fast"),
+                              dict(name="b", **{"from": "t"}, at=0, len=165, pace="slow")],
+                    nodes=[dict(name="n0", branch="a"), dict(name="n1", branch="b")], edges=[[1, 0]], gapMs=0, announceMs=250, deadlineMs=30000,
+                    winner="a", shape="heavier-shorter-150-165", announce="both", **H))
+    if tier == "thorough":
+        out.append(dict(id="heavier-shorter-3nodes", hardTarget=True, shorterWinner=True,
+                        branches=[dict(name="t", **{"from": ""}, at=0, len=40), dict(name="a", **{"from": "t"}, at=40, len=150, pace="fast"),
+                                  dict(name="b", **{"from": "t"}, at=40, len=166, pace="slow")],
+                        nodes=[dict(name="n0", branch="b"), dict(name="n1", branch="a"), dict(name="n2", branch="b", back=20)], edges=[[0, 1], [2, 0]],
+                        gapMs=40, announceMs=250, deadlineMs=45000, winner="a", shape="heavier-shorter-3nodes", announce="both", **H))
     # WithMaxSendBlocks(m) on the serving node, k blocks needed: k <= m must work (boundary m-1, m)
     out.append(two("msb10-need9", 25, 9, 7, n0=dict(maxSendBlocks=10)))
     out.append(two("msb10-need10", 25, 10, 7, n0=dict(maxSendBlocks=10)))
@@ -313,7 +326,7 @@ def validate_sync_file(wd, path, tag, verdict, prop):
             raise vlib.Infra("cannot locate failing event %d of %s" % (consumed, path))
         tree, s0, s1 = bad[0]
         hdr = json.loads(lines[tree])
-        verdict.add({"sig": "trace:%s:%s" % (ev.get("op"), "err" if ev.get("err") else "ok"),
+        verdict.add({"sig": "trace:%s:%s%s" % (ev.get("op"), "err" if ev.get("err") else "ok", (":" + hdr["kind"]) if hdr.get("kind") else ""),
                      "desc": "TLC rejects event %d of node %s in scenario %s: %s (violated: %s)" %
                              (consumed - s0, ev.get("node"), hdr.get("why"), json.dumps({k: ev[k] for k in ev if k not in ("tree",)})[:700], r.violated or "no SyncTrace action explains it"),
                      "replay": {"kind": "trace", "scenario": hdr.get("why"), "events": [json.loads(x) for x in lines[s0:consumed + 1]]}})
